@@ -269,7 +269,13 @@ def line_of(scn):
                 elif op[0] == "R":
                     E += "/%d:%s" % (op[1], m)
     W = lst([str(i) for i in scn.get("raw", [])])
-    return "run H=%s F=%s A=%s R=%s X=%s S=%s N=%s L=%s E=%s D=3 O=%s W=%s" % (H, F, A, R, X, Sf, N, L, E, O, W)
+    line = "run H=%s F=%s A=%s R=%s X=%s S=%s N=%s L=%s E=%s D=3 O=%s W=%s" % (H, F, A, R, X, Sf, N, L, E, O, W)
+    pre = scn.get("pre")
+    if pre and pre["stage"] == "filter":
+        # the filter of handler pos logs message 100+i while it is asked about the outer message i (Emit/PreLock.lean)
+        line += " Q=" + lst(["%d,%d,%d" % (op[1], pre["pos"], 100 + op[1]) for g in scn["groups"] for op in g
+                             if op[0] == "l" and op[1] < 100])
+    return line
 
 
 def show_obs(results, events, reg, minlevel, sinks):
@@ -1376,10 +1382,23 @@ def pre_expected(p):
     return obs
 
 
-def judge_pre(ctx, p):
+def judge_pre(ctx, p, model_line=None):
     scn = pre_scn(p)
     status, obs = run_impl(scn)
     exp = pre_expected(p)
+    if model_line is not None and p["stage"] == "filter":
+        # the filter variant is part of the Lean model (Emit/PreLock.lean: loopNP): compare as well
+        mo = model_line.split("|")
+        if status != "hang" and obs != mo:
+            ctx.broke("correspondence Emit.loopNP (logger used from a filter)",
+                      "case=%r impl=%r model=%r" % (p, obs, mo))
+            if obs == exp:
+                ctx.violation("the filter of handler %d uses the logger (%r): Lean model (filter_using_logger_restores_"
+                              "everything, filter_escape_is_filter_stage_failure) says %r, implementation did %r"
+                              % (p["pos"], p, mo, obs),
+                              {"oracle_only": "pre-lock-reenter", "params": p, "scenario": scn, "expected": mo,
+                               "observed": obs, "status": status}, kind="correspondence")
+                return True
     ctx.case(("pre-lock-reenter", json.dumps(p, sort_keys=True)), nontrivial=True)
     ctx.stat("logger_used_in_filter_or_format_function")
     if status == "hang" or obs != exp:
@@ -1984,8 +2003,13 @@ def run(ctx):
             crng.shuffle(pl)
             cc, cl, pl = cc[:10], cl[:14], pl[:24]
         nbad = 0
+        fl = [q for q in pl if q["stage"] == "filter"]
+        try:
+            pmod = dict(zip([json.dumps(q, sort_keys=True) for q in fl], drv.run([line_of(pre_scn(q)) for q in fl])))
+        except core.DriverError:
+            pmod = {}              # reported below as the broken driver; the oracle still judges
         for params in pl:
-            nbad += judge_pre(ctx, params)
+            nbad += judge_pre(ctx, params, pmod.get(json.dumps(params, sort_keys=True)))
             if nbad >= 2:
                 break
         nbad = 0
